@@ -4,6 +4,7 @@
     in the corpus (all 2^(n-1) chunkings plus empty chunks);
 (b) helper level: parse_stream / parse_async_stream / WSGI Request.form / ASGI Request.form under whole, byte-wise, every fixed size,
     every 1-cut (with empty chunk) and, for the sync helper, every 2-cut chunking."""
+import itertools
 from ..core.result import R
 from ..refs import multipart_ref as MR
 from . import mp_common as MP
@@ -133,7 +134,13 @@ def run_shard(desc, tier):
         want = MR.expected_items(parts, enc)
         fn = MP.PATHS[path]
         two = path == "parse_stream" and (tier == "thorough" or len(body) <= 260)
-        for chunks in MP.helper_chunkings(body, two):
+        extra = []
+        if epi is None and body.endswith(b"--\r\n"):
+            # the line break after the close delimiter is optional (RFC 2046): the same body without it, whole, cut once anywhere
+            # in its last 12 bytes, and byte by byte
+            short = body[:-2]
+            extra = [[short], [short[i:i + 1] for i in range(len(short))]] + [[short[:len(short) - k], short[len(short) - k:]] for k in range(1, min(12, len(short)))]
+        for chunks in itertools.chain(MP.helper_chunkings(body, two), extra):
             r.count("evaluations")
             r.count("traces")
             r.count("transitions", len(chunks))
